@@ -30,7 +30,7 @@ using sim::Rng;
 enum { C_PART = 0, C_QLEN, C_RECYCLE };
 enum { P_LRU_SET = 0, P_LRU_MAP, P_SPLAY_SET, P_SPLAY_MULTI, P_SPLAY_SET_TRACKED, P_SPLAY_MULTI_TRACKED, P_LRU_SET_HEAP, P_LRU_MAP_HEAP, P_N };
 enum { L_PUT = 0, L_TOUCH, L_TOUCH_IF, L_GET, L_GET_TOUCH, L_ERASE, L_ERASE_IF, L_EXISTS, L_POP, L_CLEAR, L_PUT_OWN_VALUE, L_N };
-enum { S_INSERT = 0, S_ERASE, S_EXISTS, S_FIND, S_CLEAR, S_ERASE_NODE, S_N };
+enum { S_INSERT = 0, S_ERASE, S_EXISTS, S_FIND, S_CLEAR, S_ERASE_NODE, S_KEEP_NODE, S_ERASE_KEPT, S_N };
 const uint32_t RECYCLE[] = {0, 300, 700, 1000};
 constexpr int KEYS = 8;
 
@@ -196,8 +196,10 @@ void run_splay(const Workload& w, Result& res) {
     const bool tracked = !std::is_same<K, int>::value;
     auto tree = std::make_unique<Tree>();
     std::multiset<int> model;
-    static const char* names[] = {"insert", "erase", "exists", "find", "clear", "erase_node"};
+    static const char* names[] = {"insert", "erase", "exists", "find", "clear", "erase_node", "keep_node", "erase_kept_node"};
     int step = 0;
+    decltype(tree->find(mkkey<K>(0))) kept = nullptr;
+    int kept_key = -1;
     const int64_t live0 = sim::tracked_live();
     for (auto& op : w.ops) {
         if (op.empty()) continue;
@@ -214,6 +216,7 @@ void run_splay(const Workload& w, Result& res) {
             break;
         }
         case S_ERASE: {
+            if (k == kept_key) kept = nullptr;   // (which of the equal nodes goes is the tree's business)
             bool rv = tree->erase(mkkey<K>(k));
             if (rv != had) res.fail("splay_return", "erase returned " + std::to_string(rv) + ", " + at);
             if (had) model.erase(model.find(k));
@@ -241,8 +244,25 @@ void run_splay(const Workload& w, Result& res) {
             }
             break;
         }
-        case S_CLEAR: tree->clear(); model.clear(); res.probe("splay_clear"); break;
+        case S_CLEAR: tree->clear(); model.clear(); kept = nullptr; res.probe("splay_clear"); break;
+        // a node pointer obtained from find() is kept over later insertions (nodes are stable) and erased
+        // through erase(node) when it is no longer the node a fresh find() would return
+        case S_KEEP_NODE: {
+            auto* n = tree->find(mkkey<K>(k));
+            if (n != nullptr && had && keyval(n->key) == k) { kept = n; kept_key = k; }
+            break;
+        }
+        case S_ERASE_KEPT:
+            if (kept != nullptr) {
+                bool rv = tree->erase(kept);
+                if (!rv) res.fail("splay_return", "erase(node) of a node obtained earlier returned false, " + at);
+                model.erase(model.find(kept_key));
+                kept = nullptr;
+                res.probe("splay_erase_node_kept_over_inserts");
+            }
+            break;
         case S_ERASE_NODE: {
+            if (k == kept_key) kept = nullptr;
             auto* n = tree->find(mkkey<K>(k));
             if (n != nullptr && had && keyval(n->key) == k) {
                 bool rv = tree->erase(n);
